@@ -16,7 +16,8 @@ RULE_TEXT = ("One failing step under composed policies (stop_after_attempt 0..5,
              "two runtimes (BasicRuntime get_now / epoch-based get_now as a durable runtime would have), optional "
              "@catch_error handler to observe StepFailedEvent. Model = independent evaluation of the documented policy "
              "semantics on virtual elapsed time. Non-trivial: >=2 executions and a stop/retry decision that depends on "
-             "elapsed time or exception class; distinct = (policy kinds, decisions, clock arm).")
+             "elapsed time or exception class; distinct = (policy kinds, decisions, clock arm)."
+             " Contended arm: in 35% a sibling step without policy consumes the same event type (must run exactly once per event, retry_number 0). 15% of the policies carry an extra generous stop_after_delay given as a timedelta of 1-3 days, which must change nothing.")
 COMPONENTS = {"real": ["workflows.* engine, retry_policy"], "stub": ["llama_index_instrumentation"], "sim": ["loop, clocks (distinct monotonic/wall origins)"]}
 ASSUMPTIONS = ["'really elapsed' = virtual elapsed time t; decisions within 1e-9 of a delay boundary are exempt",
                "no wall-clock step faults are injected in this check"]
